@@ -166,18 +166,21 @@ def run(repo: Repo, L: Ledger, tier: str):
     lp = inner[0]
     iv, fv = (e.id for e in lp.target.elts)
     ok5, why5 = True, ""
-    n_gap_paths = 0
+    kinds = set()
     for p in PathEnum((0, 1), exc_edges=False).block(lp.body):
         frag_adds, gap_adds = [], []
         had_prev = None
+        nonconsec = None
         for i, e in enumerate(p.events):
             if e.kind == "cond":
                 from ..flow import cond_facts
 
                 for t, v in cond_facts(e.node, e.val):
-                    tx = norm(t)
-                    if tx.endswith("is not None") and v:
+                    tx = norm(t).replace(" ", "")
+                    if tx.endswith("isnotNone") and v:
                         had_prev = True
+                    if isinstance(t, ast.Compare) and len(t.ops) == 1 and isinstance(t.ops[0], ast.NotEq) and tx.endswith(f"!={iv}-1"):
+                        nonconsec = v
             if e.kind == "stmt":
                 for c in [x for x in [e.node, *walk_shallow(e.node)] if isinstance(x, ast.Call) and isinstance(x.func, ast.Attribute) and x.func.attr == "add_row"]:
                     a = c.args[0]
@@ -185,8 +188,9 @@ def run(repo: Repo, L: Ledger, tier: str):
                         frag_adds.append(i)
                     else:
                         gap_adds.append((i, a))
+        if frag_adds and had_prev and nonconsec is True and not gap_adds:
+            ok5, why5 = False, "two left-over contigs that were NOT consecutive rows in the input are placed next to each other with no gap row on a path (e.g. input a,b,c without gaps, only b found: a and c become directly adjacent)"
         if gap_adds:
-            n_gap_paths += 1
             if not had_prev:
                 ok5, why5 = False, "a gap row is added without a test that a fragment was added before it (scaffold could start with a gap)"
             if not frag_adds or frag_adds[-1] < gap_adds[-1][0]:
@@ -196,11 +200,15 @@ def run(repo: Repo, L: Ledger, tier: str):
             for _, a in gap_adds:
                 src = norm(a)
                 defs = [norm(d) for d in local_defs(addm, a.id)] if isinstance(a, ast.Name) else []
-                is_input_prev = any(d.replace(" ", "") in (f"scffld.rows[{iv}-1]",) or d.replace(" ", "").endswith(f".rows[{iv}-1]") for d in defs)
-                if not (src == "self.default_gap" or is_input_prev):
+                is_input_prev = any(d.replace(" ", "").endswith(f".rows[{iv}-1]") for d in defs)
+                if src == "self.default_gap":
+                    kinds.add("join")
+                elif is_input_prev:
+                    kinds.add("input")
+                else:
                     ok5, why5 = False, f"inserted gap '{src}' is neither the input row preceding the fragment nor the join gap"
         if len(frag_adds) > 1:
             ok5, why5 = False, "fragment added twice"
-    if n_gap_paths < 2:
-        ok5, why5 = False, why5 or "gap insertion paths (input gap / join gap) not both present"
+    if kinds != {"join", "input"}:
+        ok5, why5 = False, why5 or f"gap insertion kinds {sorted(kinds)}: both the input gap and the join gap case are needed"
     L.check(ok5, "R5", addm.short, "gaps only between two fragments; input gap or join gap", why5, addm.loc(lp))
